@@ -177,6 +177,47 @@ theorem bsearchBy_notFound (n : Nat) (cmp : Nat → Ordering) (hm : Mono n cmp) 
         exact rank_gt_le this
       | inr hng => exact absurd hc hng
 
+/-- the textbook search satisfies the same contract -/
+theorem bsearchRef_spec (cmp : Nat → Ordering) (n : Nat) (hm : Mono n cmp) :
+    ∀ (d lo hi : Nat), hi - lo = d → lo ≤ hi → hi ≤ n →
+      (∀ i, i < lo → cmp i = .lt) → (∀ i, hi ≤ i → i < n → cmp i = .gt) →
+      (∀ i, Spec.bsearchRef cmp lo hi = .found i → i < n ∧ cmp i = .eq) ∧
+      (∀ k, Spec.bsearchRef cmp lo hi = .notFound k →
+        k ≤ n ∧ (∀ i, i < k → cmp i = .lt) ∧ (∀ i, k ≤ i → i < n → cmp i = .gt)) := by
+  intro d
+  induction d using Nat.strongRecOn with
+  | ind d ih =>
+    intro lo hi hd hle hn hlo hhi
+    rw [Spec.bsearchRef]
+    by_cases h : lo < hi
+    · rw [if_pos h]
+      simp only
+      have hmid : lo + (hi - lo) / 2 < hi := by omega
+      cases hc : cmp (lo + (hi - lo) / 2) with
+      | eq =>
+        simp only
+        refine ⟨fun i hi' => ?_, fun k hk => by cases hk⟩
+        cases hi'
+        exact ⟨by omega, hc⟩
+      | lt =>
+        simp only
+        refine ih (hi - (lo + (hi - lo) / 2 + 1)) (by omega) _ _ rfl (by omega) hn ?_ hhi
+        intro i hi'
+        have := hm i (lo + (hi - lo) / 2) (by omega) (by omega)
+        rw [hc] at this
+        exact rank_le_lt this
+      | gt =>
+        simp only
+        refine ih (lo + (hi - lo) / 2 - lo) (by omega) _ _ rfl (by omega) (by omega) hlo ?_
+        intro i hi1 hi2
+        have := hm (lo + (hi - lo) / 2) i hi1 hi2
+        rw [hc] at this
+        exact rank_gt_le this
+    · rw [if_neg h]
+      refine ⟨fun i hi' => (by cases hi'), fun k hk => ?_⟩
+      cases hk
+      exact ⟨by omega, hlo, fun i hi1 hi2 => hhi i (by omega) hi2⟩
+
 /-! ### sorted function tables -/
 
 theorem checkSorted_iff (b : Bytes) (t : Ref) : checkSorted b t = true ↔ Spec.Sorted b t := by
